@@ -147,6 +147,21 @@ def build(rng: random.Random, kind: str):
             bins[ax] = np.array(ed, dtype=it) if it != "int64" or rng.random() < 0.5 else np.array([int(x) for x in ed])
             if ax == 0 and kind in ("radial", "polar", "spherical", "cylindrical"):
                 R = float(ed[-1])  # the covered region reaches that far now
+    if not gapped and rng.random() < 0.12 and all(np.asarray(b).dtype.kind == "f" for b in bins):
+        # edges handed over as float32 / float16 arrays (read-outs, compact files): the bins are those numbers, and their centres, widths
+        # and measures are computed from them in double precision
+        et = rng.choice([np.float32, np.float32, np.float16])
+        if et is np.float16:
+            ok16 = all(float(np.max(np.abs(b))) < 300 for b in bins)
+            et = np.float16 if ok16 else np.float32
+        nb_ = [np.asarray(b).astype(et) for b in bins]
+        if all(len(np.unique(x)) == len(x) and np.all(np.diff(x.astype(float)) > 0) for x in nb_):
+            if rng.random() < 0.4 and kind in ("radial", "polar", "spherical", "cylindrical", "h1"):
+                # a thin ring far out: r = 1000 with bins 0.125 wide (all float32 numbers)
+                n0 = len(nb_[0]) - 1
+                nb_[0] = (1000.0 + 0.125 * np.arange(n0 + 1)).astype(np.float32)
+            bins = nb_
+            full = False  # (2 pi, pi and R as float32 numbers are other numbers: the covered region is no longer "the full range")
     shape = tuple(len(b) if gapped else len(b) - 1 for b in bins)
     dtype = rng.choice(["int64", "float64", "int16", "float32", "int32"])
     if np.dtype(dtype).kind in "iu":
